@@ -120,6 +120,57 @@ func main() {
 			}
 			return nil
 		}
+		if os.Getenv("MUT_SIBLING") != "" {
+			// a look-alike function or constructor for the one meant (copy-paste): the identifier of
+			// a call replaced by each other member of its family
+			groups := [][]string{
+				{"Add", "Subtract"}, {"Multiply", "Divide"}, {"MultiplyBy", "DivideBy"}, {"IncrementBy", "DecrementBy"},
+				{"KeepPositives", "KeepNegatives"}, {"Change", "ChangeRatio", "ChangePercent"},
+				{"SnapshotsAsOpenings", "SnapshotsAsHighs", "SnapshotsAsLows", "SnapshotsAsClosings", "SnapshotsAsVolumes"},
+				{"NewSmaWithPeriod", "NewEmaWithPeriod", "NewSmmaWithPeriod", "NewRmaWithPeriod", "NewWmaWithPeriod"},
+				{"NewSma", "NewEma", "NewSmma", "NewRma"},
+				{"NewMovingMaxWithPeriod", "NewMovingMinWithPeriod"}, {"NewMovingMax", "NewMovingMin"},
+				{"Head", "Skip"}, {"First", "Last"}, {"Shift", "Skip"}, {"Abs", "Sqrt"}, {"Max", "Min"}, {"Pow", "Mod"},
+				{"ActionsToAnnotations", "NormalizeActions", "DenormalizeActions"},
+				{"Lock", "RLock"}, {"Unlock", "RUnlock"}, {"After", "Before"}, {"HasSuffix", "HasPrefix"}, {"TrimSuffix", "TrimPrefix"},
+			}
+			sib := map[string][]string{}
+			for _, g := range groups {
+				for _, a := range g {
+					for _, b := range g {
+						if a != b {
+							sib[a] = append(sib[a], b)
+						}
+					}
+				}
+			}
+			ast.Inspect(f, func(n ast.Node) bool {
+				call, ok := n.(*ast.CallExpr)
+				if !ok {
+					return true
+				}
+				fun := call.Fun
+				if ix, isIx := fun.(*ast.IndexExpr); isIx {
+					fun = ix.X
+				}
+				var id *ast.Ident
+				switch x := fun.(type) {
+				case *ast.Ident:
+					id = x
+				case *ast.SelectorExpr:
+					id = x.Sel
+				}
+				if id == nil {
+					return true
+				}
+				for _, alt := range sib[id.Name] {
+					p := fset.Position(id.Pos())
+					enc.Encode(mut{rel, p.Offset, id.Name, alt, p.Line, "sibling"})
+				}
+				return true
+			})
+			return nil
+		}
 		ast.Inspect(f, func(n ast.Node) bool {
 			if blk, ok := n.(*ast.BlockStmt); ok && os.Getenv("MUT_DELETE") != "" {
 				for _, st := range blk.List {
@@ -162,6 +213,13 @@ func main() {
 					enc.Encode(mut{rel, p.Offset, x.Op.String(), to.String(), p.Line, "op"})
 				}
 			case *ast.BasicLit:
+				if x.Kind == token.FLOAT && os.Getenv("MUT_FLOAT") != "" {
+					if v, err := strconv.ParseFloat(x.Value, 64); err == nil {
+						p := fset.Position(x.Pos())
+						enc.Encode(mut{rel, p.Offset, x.Value, strconv.FormatFloat(v*2, 'g', -1, 64) + ".0", p.Line, "float*2"})
+						enc.Encode(mut{rel, p.Offset, x.Value, strconv.FormatFloat(v+1, 'g', -1, 64) + ".0", p.Line, "float+1"})
+					}
+				}
 				if x.Kind == token.INT {
 					v, err := strconv.ParseInt(x.Value, 10, 64)
 					if err != nil || v > 400 {
